@@ -876,6 +876,9 @@ func (w *wk) runBatch(strs []string) BatchOut {
 		}
 		cases[i] = c
 	}
+	if cases[0].Variant >= 5 {
+		return w.runLongLived(strs, cases)
+	}
 	if cases[0].Variant >= 3 {
 		return w.runLive(strs, cases)
 	}
